@@ -147,12 +147,6 @@ func validateValue(option *Option, value interface{}) (*valueCache, *ValidationE
 		if option.OptType != OptTypeInt {
 			return nil, invalid(option, "expected type %s, got type %T", getTypeName(option.OptType), v)
 		}
-		if option.compiledRegex != nil {
-			// we need to use %v here so we handle float and int correctly.
-			if !option.compiledRegex.MatchString(fmt.Sprintf("%v", v)) {
-				return nil, invalid(option, "did not match validation regex")
-			}
-		}
 		switch v := value.(type) {
 		case int:
 			validated = &valueCache{intVal: int64(v)}
@@ -188,6 +182,13 @@ func validateValue(option *Option, value interface{}) (*valueCache, *ValidationE
 			}
 		default:
 			return nil, invalid(option, "internal error")
+		}
+		if option.compiledRegex != nil {
+			// Match the converted integer, not the original value: numbers loaded
+			// from JSON are float64 and %v formats them as "1e+06" from 1000000 on.
+			if !option.compiledRegex.MatchString(fmt.Sprintf("%d", validated.intVal)) {
+				return nil, invalid(option, "did not match validation regex")
+			}
 		}
 	case bool:
 		if option.OptType != OptTypeBool {
